@@ -22,6 +22,7 @@ type genCfg struct {
 	nonStrict   bool
 	shadows     bool
 	subdirs     bool
+	selfRefs    bool // plant constants defined in terms of themselves and enum items at other types (must be rejected)
 }
 
 type gen struct {
@@ -446,6 +447,33 @@ func (g *gen) build() *Prog {
 			}
 		}
 	}
+	// a constant redefined as a reference to any constant of the same type — itself, an
+	// earlier or a later one: cycles must be rejected, under every order
+	if g.cfg.selfRefs && len(g.consts) > 0 && r.Chance(1, 12) {
+		c := g.consts[r.Intn(len(g.consts))]
+		var same []*Def
+		for _, c2 := range g.consts {
+			if c2.Ty.Text() == c.Ty.Text() && (c.Ty.Kind != "ref" || c2.Ty.Target == c.Ty.Target) {
+				same = append(same, c2)
+			}
+		}
+		c2 := same[r.Intn(len(same))]
+		if sp := g.spelled(c.File, c2); sp != "" {
+			c.Val = &CV{Kind: 'r', R: sp, Target: c2}
+		}
+	}
+	// an enum item where the declared type is not that enum: must be rejected
+	if g.cfg.selfRefs && len(g.consts) > 0 && r.Chance(1, 20) {
+		c := g.consts[r.Intn(len(g.consts))]
+		for _, e := range g.types {
+			if e.Kind == 'E' && len(e.Items) > 0 && rootExpr(c.Ty) != nil && rootExpr(c.Ty).Target != e {
+				if sp := g.spelled(c.File, e); sp != "" {
+					c.Val = &CV{Kind: 'r', R: sp + "." + e.Items[0].Name}
+				}
+				break
+			}
+		}
+	}
 	for _, d := range g.types {
 		if d.Kind == 'S' && d.SKind != 'u' {
 			for _, f := range d.Fields {
@@ -595,43 +623,6 @@ func valueDeps(t *TExpr, v *CV, out *[]*Def) {
 	}
 }
 
-// constDependencyCycle: the graph "constant -> constants and struct literals in its value;
-// struct -> constants and struct literals in its field defaults" has a cycle. This is the
-// shape on which the current linker does not terminate (D4: constant cycles; D40: a struct
-// whose default needs a literal of the same struct again) or accepts a self-defined
-// constant (D6).
-func constDependencyCycle(defs []*Def) bool {
-	succ := func(d *Def) []*Def {
-		var out []*Def
-		switch d.Kind {
-		case 'C':
-			valueDeps(d.Ty, d.Val, &out)
-		case 'S':
-			for _, f := range d.Fields {
-				valueDeps(f.Ty, f.Dflt, &out)
-			}
-		}
-		return out
-	}
-	for _, start := range defs {
-		seen := map[*Def]bool{}
-		stack := succ(start)
-		for len(stack) > 0 {
-			d := stack[len(stack)-1]
-			stack = stack[:len(stack)-1]
-			if d == start {
-				return true
-			}
-			if seen[d] {
-				continue
-			}
-			seen[d] = true
-			stack = append(stack, succ(d)...)
-		}
-	}
-	return false
-}
-
 // structLiteralReentry: linking struct S can reach (through the types of its fields, its
 // defaults, the constants those mention, …) a value that contains a literal of S itself.
 // Such a literal is then evaluated against a half-linked S — the shape of D50 (whether the
@@ -696,13 +687,13 @@ func structLiteralReentry(defs []*Def) bool {
 
 func newGen(r *rng.R, cfg genCfg) *gen { return &gen{r: r, cfg: cfg} }
 
-// program generates a program that avoids the D10, D4/D6/D40 and D50 shapes.
+// program generates a program that avoids the D10 and D50 shapes.
 func program(r *rng.R, cfg genCfg) (*Prog, *gen) {
 	for {
 		g := newGen(r.Fork(), cfg)
 		p := g.build()
 		all := append(append([]*Def(nil), g.types...), g.consts...)
-		if !typedefOnCycle(g.types) && !constDependencyCycle(all) && !structLiteralReentry(all) {
+		if !typedefOnCycle(g.types) && !structLiteralReentry(all) {
 			return p, g
 		}
 	}
